@@ -100,9 +100,14 @@ def read_index(path):
         return None
     conn = sqlite3.connect(path)
     try:
-        return sorted(conn.execute(
-            "SELECT task_identifier, timestamp, git_commit_hash, has_uncommitted_changes FROM version_index"
-        ).fetchall(), key=lambda r: (r[0], r[1]))
+        try:
+            return sorted(conn.execute(
+                "SELECT task_identifier, timestamp, git_commit_hash, has_uncommitted_changes FROM version_index"
+            ).fetchall(), key=lambda r: (r[0], r[1]))
+        except sqlite3.OperationalError as ex:
+            if "no such table" in str(ex):  # killed while the index was being created: no rows
+                return []
+            raise
     finally:
         conn.close()
 
@@ -186,6 +191,7 @@ class Result:
         self.vk = None
         self.unraisable = []
         self.events = []
+        self.timed_out = False
 
     def lines(self):
         return [l for l in self.out_text.splitlines() if l.strip()]
@@ -232,7 +238,38 @@ def _escape(name):
     return f
 
 
-def run_cli(argv, cwd, *, vk=None, git=None, clock=None, env=None, tracer=None, real_processes=False):
+class HarnessTimeout(BaseException):
+    """The in-process command did not come back in time (a hang of the code under test)."""
+
+
+_alarm_state = {"res": None, "vk": None, "stage": 0}
+
+
+def _on_alarm(sig, frame):
+    """Stage 1: the code under test is blocked waiting for a virtual child that nobody terminated (e.g. a finalizer
+    joining a tee thread): let the children die so that it can continue, and remember that it hung.  Stage 2: raise."""
+    st = _alarm_state
+    if st["stage"] == 0:
+        st["stage"] = 1
+        if st["res"] is not None:
+            st["res"].timed_out = True
+        vk = st["vk"]
+        if vk is not None:
+            for p in vk.procs.values():
+                for attr in ("out_fd", "err_fd"):
+                    fd = getattr(p, attr)
+                    if fd is not None:
+                        try:
+                            os.close(fd)
+                        except OSError:
+                            pass
+                        setattr(p, attr, None)
+        signal.setitimer(signal.ITIMER_REAL, 20)
+        return
+    raise HarnessTimeout()
+
+
+def run_cli(argv, cwd, *, vk=None, git=None, clock=None, env=None, tracer=None, real_processes=False, timeout=None):
     """
     Run `cond <argv>` in-process with cwd.  vk: a vkmod.VK (virtual processes) or None (no process seam:
     only for commands that spawn nothing or when real_processes=True).  git: object with .run(argv, **kw)
@@ -300,7 +337,12 @@ def run_cli(argv, cwd, *, vk=None, git=None, clock=None, env=None, tracer=None, 
             os.chdir(cwd)
             sys.argv = ["cond"] + list(argv)
             sys.stdout, sys.stderr = out, err
+            old_alarm = None
             try:
+                if timeout is not None:
+                    _alarm_state.update(res=res, vk=vk, stage=0)
+                    old_alarm = signal.signal(signal.SIGALRM, _on_alarm)
+                    signal.setitimer(signal.ITIMER_REAL, timeout)
                 if tracer is not None:
                     tracer.start()
                 try:
@@ -318,8 +360,18 @@ def run_cli(argv, cwd, *, vk=None, git=None, clock=None, env=None, tracer=None, 
                 res.exc = ex
             finally:
                 sys.stdout, sys.stderr = old_out, old_err
-                # drop frames/objects of the run so that finalizers (Popen.__del__) run under the VK
-                gc.collect()
+                # drop frames/objects of the run so that finalizers (Popen.__del__, OutputHandler.__del__) run under the VK
+                try:
+                    if res.exc is not None:
+                        res.exc_tb = None
+                        res.exc.__traceback__ = None
+                    gc.collect()
+                finally:
+                    if timeout is not None:
+                        signal.setitimer(signal.ITIMER_REAL, 0)
+                        if old_alarm is not None:
+                            signal.signal(signal.SIGALRM, old_alarm)
+                        _alarm_state.update(res=None, vk=None)
             if vk is not None and vk.fatal is not None and res.exc is None:
                 res.exit = "EXC"
                 res.exc = vk.fatal
